@@ -251,6 +251,8 @@ func runC19(c *Check) {
 			c.Bad("C19-R3", "derivation ⟂ "+d, fnName(fn), p.Pos(fn.Pos()), "address derivation is not sha256.Sum256(pub.Raw())[:] ("+key+"): the address a signer reports differs from the one full nodes derive from its public key", nil)
 		}
 	}
+	c.Doc("C19-R5", "VP+EO: a buffer is zeroed outside a defer only after the last use of every value that may alias it.")
+	ruleWipeAfterLastUse(c, p, keyFns)
 	c.MinInstances("C19-R1", 1)
 	c.MinInstances("C19-R2", 2)
 	c.MinInstances("C19-R3", 3)
@@ -262,4 +264,103 @@ func pkgOf(fn *ssa.Function) string {
 		return pk.Pkg.Path()
 	}
 	return "?"
+}
+
+// ruleWipeAfterLastUse (C19-R5): a buffer is wiped (zeroing helper called outside a defer) only
+// after the last use of every value that may alias it. The legacy key derivation returns a slice
+// of the passphrase, so wiping the passphrase before the derived key was used zeroes the key.
+func ruleWipeAfterLastUse(c *Check, p *Prog, fns []*ssa.Function) {
+	rule := "C19-R5"
+	// the zeroing helper: a package function whose body stores the constant 0 into an element of its slice parameter
+	isWipe := func(fn *ssa.Function) bool {
+		if fn == nil || len(fn.Params) != 1 || fn.Signature.Results().Len() != 0 {
+			return false
+		}
+		for _, b := range fn.Blocks {
+			for _, in := range b.Instrs {
+				if st, ok := in.(*ssa.Store); ok {
+					if ia, ok := st.Addr.(*ssa.IndexAddr); ok && ia.X == ssa.Value(fn.Params[0]) {
+						if k, ok := st.Val.(*ssa.Const); ok && k.Value != nil && k.Value.String() == "0" {
+							return true
+						}
+					}
+				}
+			}
+		}
+		return false
+	}
+	n := 0
+	for _, fn := range fns {
+		g := BuildECFG(p, fn, ExpandOpts{MaxDepth: 0})
+		c.NoteGraph(g)
+		for _, w := range g.Select(func(x *Node) bool {
+			call, ok := x.In.(*ssa.Call) // deferred wipes run at exit and are fine
+			return ok && isWipe(call.Common().StaticCallee())
+		}) {
+			n++
+			buf := ArgTerm(w, 0)
+			// later uses of values that may alias buf
+			var aliasUse *Node
+			var aliasTerm *Term
+			reach := g.Reachable([]*Node{w}, nil)
+			for u := range reach {
+				cc := CallCommonOf(u)
+				if cc == nil || u == w {
+					continue
+				}
+				if call, ok := u.In.(*ssa.Call); ok && isWipe(call.Common().StaticCallee()) {
+					continue
+				}
+				for i := range cc.Args {
+					a := ArgTerm(u, i)
+					if a == nil {
+						continue
+					}
+					if a.String() == buf.String() || p.DeepContains(a, func(t *Term) bool { return t.Op == "slice" && t.Args[0].String() == buf.String() || (t != a && t.String() == buf.String() && t.Op == "param") }, 2) {
+						// a value derived from the wiped buffer: only slices/aliases matter, not copies; a
+						// helper that returns buf[:n] aliases it
+						if aliasesBuffer(p, a, buf, 2) {
+							aliasUse, aliasTerm = u, a
+						}
+					}
+				}
+			}
+			inst := fnShort(fn) + " ⟂ wipe(" + trunc(buf.String(), 30) + ")"
+			if aliasUse == nil {
+				c.OK(rule, inst, fnName(fn), p.InstrPos(w.In), "no value that may alias the wiped buffer is used afterwards", true)
+			} else {
+				c.Bad(rule, inst, fnName(fn), p.InstrPos(w.In), "the buffer is zeroed here although "+trunc(aliasTerm.String(), 80)+", which may alias it (a helper returns a slice of it), is used afterwards at "+p.InstrPos(aliasUse.In)+": for a legacy key file and a passphrase of 32 bytes or more the cipher key is all zeros — the right passphrase is rejected and any long passphrase opens a file saved under the empty one", nil)
+			}
+		}
+	}
+	if n == 0 {
+		c.OK(rule, "no-early-wipe", "", "", "no buffer is wiped outside a defer in the key-handling functions", false)
+	}
+}
+
+// aliasesBuffer: term t may share memory with buf: it is buf, a slice of buf, or the result of a
+// repo helper one of whose returns is such a slice.
+func aliasesBuffer(p *Prog, t, buf *Term, depth int) bool {
+	t = t.unconv()
+	if t.String() == buf.String() {
+		return true
+	}
+	if t.Op == "slice" {
+		return aliasesBuffer(p, t.Args[0], buf, depth)
+	}
+	if t.Op == "phi" {
+		for _, a := range t.Args {
+			if aliasesBuffer(p, a, buf, depth) {
+				return true
+			}
+		}
+	}
+	if depth > 0 && (t.Op == "call" || (t.Op == "extract" && t.Args[0].Op == "call")) {
+		for _, r := range p.ReturnTerms(t) {
+			if aliasesBuffer(p, r, buf, depth-1) {
+				return true
+			}
+		}
+	}
+	return false
 }
